@@ -138,7 +138,7 @@ class Armorable(metaclass=abc.ABCMeta):
             m['hashes'] = m['hashes'].split(',')
 
         if m['headers'] is not None:
-            m['headers'] = collections.OrderedDict(re.findall('^(?P<key>.+): (?P<value>.+?)\r?$\n?', m['headers'], flags=re.MULTILINE))
+            m['headers'] = collections.OrderedDict(re.findall('^(?P<key>.+?): (?P<value>.+?)\r?$\n?', m['headers'], flags=re.MULTILINE))
 
         if m['body'] is not None:
             try:
